@@ -18,6 +18,7 @@ import (
 	"sort"
 	"strings"
 	"testing"
+	"time"
 
 	"github.com/janelia-flyem/dvid/datastore"
 	"github.com/janelia-flyem/dvid/datatype/common/proto"
@@ -170,10 +171,9 @@ func canonJSON(b []byte) []byte {
 func (r readReq) key() string { return r.Method + " " + r.Tail }
 
 type nodeMeta struct {
-	Note     string
-	Log      []string
-	Locked   bool
-	Children int
+	Note   string
+	Log    []string
+	Locked bool
 }
 
 // obs is what the property calls the state of a version.
@@ -190,36 +190,123 @@ func sha(b []byte) string {
 	return hex.EncodeToString(h[:8])
 }
 
-// repoInfo returns node metadata of every node and the instance names (sorted) of the repo.
-func repoInfo(root string) (map[string]nodeMeta, []string, error) {
-	js, err := datastore.GetRepoJSON(dvid.UUID(root))
-	if err != nil {
-		return nil, nil, err
-	}
-	var info struct {
-		DAG struct {
-			Nodes map[string]struct {
-				Note     string
-				Log      []string
-				Locked   bool
-				Children []json.RawMessage
-			}
+// nodeMetaOf reads note, log and commit state of a node through the node-level GET routes.  (The repo info
+// JSON is deliberately not used on the hot path: it marshals every data instance, and the label types read
+// their MaxLabel map there without the lock their background max-label updates hold — see findings.go, N3.)
+func nodeMetaOf(uuid string) (nodeMeta, error) {
+	var m nodeMeta
+	var note struct{ Note string }
+	var lg struct{ Log []string }
+	var st struct{ Locked bool }
+	for _, x := range []struct {
+		ep string
+		v  interface{}
+	}{{"note", &note}, {"log", &lg}, {"commit", &st}} {
+		r := drive.Get("node/" + uuid + "/" + x.ep)
+		if !r.OK() {
+			return m, fmt.Errorf("harness: GET node/%s/%s: %s", uuid, x.ep, r)
 		}
-		DataInstances map[string]json.RawMessage
+		if err := json.Unmarshal(r.Body, x.v); err != nil {
+			return m, fmt.Errorf("harness: GET node/%s/%s: %v in %s", uuid, x.ep, err, r)
+		}
 	}
-	if err := json.Unmarshal([]byte(js), &info); err != nil {
-		return nil, nil, err
+	m.Note, m.Log, m.Locked = note.Note, lg.Log, st.Locked
+	return m, nil
+}
+
+func instanceExists(root, name string) bool {
+	_, err := datastore.GetDataByUUIDName(dvid.UUID(root), dvid.InstanceName(name))
+	return err == nil
+}
+
+// ---- settling on a tracked instance list (same policy as drive.Settle / DeepSettle / WithDeepRetry, which
+// list the instances through the repo info JSON on every call)
+
+var tracked struct {
+	root  dvid.UUID
+	names []dvid.InstanceName
+}
+
+// trackRepo starts tracking the instances the repo has now (call before the first write of a case).
+func trackRepo(root string) {
+	tracked.root = dvid.UUID(root)
+	tracked.names = drive.InstanceNames(root)
+}
+
+func trackInstance(name string) { tracked.names = append(tracked.names, dvid.InstanceName(name)) }
+
+func untrackInstance(name string) {
+	for i, n := range tracked.names {
+		if string(n) == name {
+			tracked.names = append(tracked.names[:i], tracked.names[i+1:]...)
+			return
+		}
 	}
-	nodes := map[string]nodeMeta{}
-	for u, n := range info.DAG.Nodes {
-		nodes[u] = nodeMeta{Note: n.Note, Log: n.Log, Locked: n.Locked, Children: len(n.Children)}
+}
+
+func trackedNames() []string {
+	out := make([]string, len(tracked.names))
+	for i, n := range tracked.names {
+		out[i] = string(n)
 	}
-	var names []string
-	for n := range info.DataInstances {
-		names = append(names, n)
+	sort.Strings(out)
+	return out
+}
+
+func quietNow() bool {
+	for _, n := range tracked.names {
+		d, err := datastore.GetDataByUUIDName(tracked.root, n)
+		if err != nil {
+			continue
+		}
+		if s, ok := d.(datastore.Syncer); ok && s.SyncPending() {
+			return false
+		}
+		if u, ok := d.(interface{ Updating() bool }); ok && u.Updating() {
+			return false
+		}
 	}
-	sort.Strings(names)
-	return nodes, names, nil
+	return true
+}
+
+// settle: every tracked instance idle on 3 consecutive polls 0.5 ms apart (bounded by count).
+func settle() {
+	ok := 0
+	for i := 0; ok < 3 && i < 120000; i++ {
+		if quietNow() {
+			ok++
+		} else {
+			ok = 0
+		}
+		time.Sleep(500 * time.Microsecond)
+	}
+}
+
+// deepSettle: BlockOnUpdating for every instance, then 250 ms of continuous quiet.
+func deepSettle() {
+	for _, n := range tracked.names {
+		_ = datastore.BlockOnUpdating(tracked.root, n)
+	}
+	quietPolls := 0
+	for i := 0; quietPolls < 125 && i < 60000; i++ {
+		if quietNow() {
+			quietPolls++
+		} else {
+			quietPolls = 0
+		}
+		time.Sleep(2 * time.Millisecond)
+	}
+}
+
+// withDeepRetry evaluates an oracle; a mismatch is only believed if it survives a deep settle.
+func withDeepRetry(oracle func() error) error {
+	settle()
+	err := oracle()
+	if err == nil {
+		return nil
+	}
+	deepSettle()
+	return oracle()
 }
 
 func rawScan(db storage.OrderedKeyValueDB, min, max storage.Key, keep func(k storage.Key) bool, out map[string]string) error {
@@ -371,18 +458,19 @@ func observe(root, uuid string, reads []readReq) (*obs, error) {
 
 // observeOnly restricts the raw dump to the named instances (nil = every instance of the repo).
 func observeOnly(root, uuid string, reads []readReq, only []string) (*obs, error) {
-	nodes, names, err := repoInfo(root)
+	names := only
+	if names == nil {
+		names = trackedNames()
+	}
+	meta, err := nodeMetaOf(uuid)
 	if err != nil {
 		return nil, err
-	}
-	if only != nil {
-		names = only
 	}
 	v, err := datastore.VersionFromUUID(dvid.UUID(uuid))
 	if err != nil {
 		return nil, err
 	}
-	o := &obs{Meta: nodes[uuid]}
+	o := &obs{Meta: meta}
 	if o.Raw, err = rawDump(root, names, v); err != nil {
 		return nil, err
 	}
